@@ -280,7 +280,13 @@ func (w *smsWorld) snapshot() string {
 			ms = fmt.Sprint(v.stream.id)
 		}
 		if len(v.objs) == 0 {
-			vs = append(vs, ms+":00") // never delivered: nobody can touch it
+			// never delivered: nobody can touch it; resolveMatch closes such a value (stream closed,
+			// value errored) — the closed stream is what can be observed of it
+			if v.stream != nil && v.stream.closes.Load() > 0 {
+				vs = append(vs, ms+":10")
+			} else {
+				vs = append(vs, ms+":00")
+			}
 			continue
 		}
 		// a value's state is the state of its object; if the code made several objects for one
